@@ -58,6 +58,14 @@ func c14Run(u *vfUnit) {
 			store = vfNewStore()
 			// the objects honour the context of the request that opened them: it stays live until the handle is closed
 			store.CtxBoundObjects = true
+			// an attribute change through a handle takes a while: reads and writes on that handle go on beside it
+			store.CmdDelay = func(method string) {
+				if method == "Setstat" {
+					for spin := 0; spin < 400; spin++ {
+						runtime.Gosched()
+					}
+				}
+			}
 			cfg.H = store.Handlers(vfHandlerOpt{OpenFile: bi%2 == 0})
 			// "for all relative speeds": in a few bursts one handler call takes seconds, not microseconds
 			// (a wait with a built-in patience of a second or three would give up on it)
